@@ -483,7 +483,7 @@ class MotionGen(object):
                 kind = rng.choice(["e", "f"])       # mixed programs: the kind is chosen per cycle
             if kind == "f":
                 self.emit(rng.choice(["G10", "G10", "G10 S1", "G10S1", "G10  S1",
-                                      "G10 S0"]))
+                                      "G10 S0", "G010", "G010 S1"]))
                 gh.ret = -1
             else:
                 wtxt, actual = self.eword(-self.retAmount)
@@ -494,7 +494,7 @@ class MotionGen(object):
                 feed = (" F" + str(rng.choice([1800, 2400]))) if rng.random() < 0.5 else ""
                 self.emit(self.eonly_text(wtxt, feed))
         elif gh.ret == -1:
-            self.emit(rng.choice(["G11", "G11", "G11 S1"]))
+            self.emit(rng.choice(["G11", "G11", "G11 S1", "G011"]))
             gh.ret = 0
         else:
             wtxt, actual = self.eword(gh.ret)
@@ -1095,11 +1095,14 @@ class MotionGen(object):
                 self.act_arc()
             elif name == "home":
                 # all axes, or only some of them (also in the middle of an episode)
-                axes = rng.choice(["", "", "X", "Y", "X Y", "Z", "X0", "Y0 Z0", "X Y Z"])
+                axes = rng.choice(["", "", "X", "Y", "X Y", "Z", "X0", "Y0 Z0", "X Y Z", "O", "O X"])
                 self.emit(("G28 " + axes).strip())
                 gh = self.ghost
+                # (O: "only if not trusted" in newer firmware; the plugin and the reference
+                # printer both take every G28 as homing)
+                named = [a for a in "XYZ" if a in axes]
                 for axis in "XYZ":
-                    if not axes or axis in axes:
+                    if not named or axis in named:
                         gh.p[axis] = 0
                         gh.off[axis] = 0
                         gh.exact[axis] = True
